@@ -1101,3 +1101,127 @@ def prune_eval(env, env2, cfg):
     a, b = r1[1], r2[1]
     fails = ["%s differs: %r vs %r" % (k, a.get(k), b.get(k)) for k in sorted(set(a) | set(b)) if a.get(k) != b.get(k)]
     return True, fails
+
+
+# ==== C16 extension (appended; nothing above is changed) =====================================
+# (1) configuration validation of trusted_proxy_headers: the real Adjustments, every subset of the six
+#     kinds in several spellings and input forms, against the documented rule (names are
+#     case-insensitive; unknown names are refused; Forwarded and any X-Forwarded-* kind are mutually
+#     exclusive; an accepted set is handed to the middleware lower-cased).
+
+_TITLE = {
+    "x-forwarded-for": "X-Forwarded-For", "x-forwarded-host": "X-Forwarded-Host",
+    "x-forwarded-proto": "X-Forwarded-Proto", "x-forwarded-port": "X-Forwarded-Port",
+    "x-forwarded-by": "X-Forwarded-By", "forwarded": "Forwarded",
+}
+
+
+def _spell(rng, name, scheme):
+    if scheme == "lower":
+        return name
+    if scheme == "title":
+        return _TITLE.get(name, name.title())
+    if scheme == "upper":
+        return name.upper()
+    if scheme == "first":      # only the first letter of the name
+        return name[:1].upper() + name[1:]
+    return "".join(ch.upper() if rng.random() < 0.5 else ch for ch in name)
+
+
+def tph_rule(names):
+    """the documented rule -> ('refused', why) | ('accepted', frozenset of lower-cased names)"""
+    low = {n.lower() for n in names}
+    if not low:
+        return ("accepted", frozenset(["x-forwarded-proto"]))     # implicit, with a DeprecationWarning
+    if not low <= set(KIND_KEY):
+        return ("refused", "unknown")
+    if "forwarded" in low and len(low) > 1:
+        return ("refused", "exclusive")
+    return ("accepted", frozenset(low))
+
+
+def real_adjustments_tph(value, **extra):
+    """-> ('refused', message) | ('accepted', frozenset(adj.trusted_proxy_headers))"""
+    from waitress.adjustments import Adjustments
+
+    kw = {"trusted_proxy": "*", "trusted_proxy_headers": value, "host": "127.0.0.1", "port": 0}
+    kw.update(extra)
+    with warnings.catch_warnings():
+        warnings.simplefilter("ignore")
+        try:
+            adj = Adjustments(**kw)
+        except ValueError as ex:
+            return ("refused", str(ex))
+    return ("accepted", frozenset(adj.trusted_proxy_headers))
+
+
+def tph_config_cases(rng, tier):
+    """[(names as spelled, input form, value handed to Adjustments)]"""
+    import itertools
+    kinds = list(KIND_KEY)
+    out = []
+    schemes = ["lower", "title", "upper", "first", "mixed"]
+    for r in range(0, 7):
+        for sub in itertools.combinations(kinds, r):
+            for scheme in schemes:
+                reps = 1 if scheme != "mixed" else (2 if tier == "quick" else 8)
+                for _ in range(reps):
+                    if scheme == "mixed":
+                        # each name independently in its own spelling: 'Forwarded' + 'x-forwarded-for'
+                        names = [_spell(rng, n, rng.choice(schemes)) for n in sub]
+                    else:
+                        names = [_spell(rng, n, scheme) for n in sub]
+                    out.append((names, "set", set(names)))
+                    out.append((names, "str", " ".join(names)))
+                    if scheme in ("title", "mixed"):
+                        out.append((names, "list", list(names)))
+                        out.append((names, "str-ws", "  ".join(reversed(names)) + " "))
+    for bad in (["bogus"], ["forwarded", "Bogus"], ["x-forwarded"], ["X-Forwarded-For", "forwarded-for"], ["Forwarded", ""][:1] + ["x_forwarded_for"]):
+        out.append((bad, "set", set(bad)))
+        out.append((bad, "str", " ".join(bad)))
+    return out
+
+
+def tph_config_eval(names, form, value):
+    """-> (ok, expected, observed)"""
+    exp = tph_rule(names)
+    got = real_adjustments_tph(value)
+    if exp[0] == "refused":
+        return got[0] == "refused", exp, got
+    return got == exp, exp, got
+
+
+def tph_config_request_eval(names, value):
+    """For an ACCEPTED configuration: build the real server application and send one request of the
+    trusted peer carrying all six kinds: exactly the configured kinds survive (clearing is on), and the
+    server's middleware is configured with the lower-cased set.  -> list of failures"""
+    exp = tph_rule(names)
+    if exp[0] != "accepted":
+        return []
+    try:
+        srv = RealServerApp(trusted_proxy=PEER, trusted_proxy_headers=value)
+    except ValueError as ex:
+        return ["configuration %r refused by create_server: %s" % (names, ex)]
+    try:
+        fails = []
+        if srv.cfg.tph != exp[1]:
+            fails.append("server configured with trusted_proxy_headers=%r, expected %r" % (sorted(srv.cfg.tph or []), sorted(exp[1])))
+        env = {"REMOTE_ADDR": PEER, "REMOTE_HOST": PEER, "REMOTE_PORT": "1", "SERVER_NAME": "s", "SERVER_PORT": "8080",
+               "wsgi.url_scheme": "http", "HTTP_X_FORWARDED_FOR": "203.0.113.9", "HTTP_X_FORWARDED_HOST": "xfh.example",
+               "HTTP_X_FORWARDED_PROTO": "https", "HTTP_X_FORWARDED_PORT": "8443", "HTTP_X_FORWARDED_BY": "_p",
+               "HTTP_FORWARDED": "for=198.51.100.7;host=fwd.example;proto=http"}
+        r = srv.run(env)
+        if r[0] != "ok":
+            return fails + ["request with well-formed headers not handed on: %s" % short(r)]
+        out = r[1]
+        for kind, key in KIND_KEY.items():
+            if kind in exp[1] and key not in out:
+                fails.append("%s is listed in trusted_proxy_headers but was stripped" % key)
+            if kind not in exp[1] and key in out:
+                fails.append("%s is not trusted but reached the application" % key)
+        want_addr = "198.51.100.7" if "forwarded" in exp[1] else ("203.0.113.9" if "x-forwarded-for" in exp[1] else PEER)
+        if out.get("REMOTE_ADDR") != want_addr:
+            fails.append("REMOTE_ADDR %r, expected %r" % (out.get("REMOTE_ADDR"), want_addr))
+        return fails
+    finally:
+        srv.close()
